@@ -81,10 +81,18 @@ def _prune_cache(keep):
         ents = [os.path.join(CACHE, e) for e in os.listdir(CACHE)]
     except FileNotFoundError:
         return
+    locks = [e for e in ents if e.endswith(".lock")]
     ents = [e for e in ents if os.path.isdir(e) and os.path.basename(e) != keep]
     ents.sort(key=lambda e: os.stat(e).st_mtime, reverse=True)
-    for e in ents[3:]:
+    for e in ents[12:]:
         shutil.rmtree(e, ignore_errors=True)
+    live = {os.path.basename(e) for e in ents[:12]} | {keep}
+    for l in locks:
+        if os.path.basename(l).split(".")[0] not in live:
+            try:
+                os.unlink(l)
+            except OSError:
+                pass
 
 
 class FactError(Exception):
@@ -140,7 +148,7 @@ def load(config, repo=None):
     os.makedirs(CACHE, exist_ok=True)
     th = tree_hash(repo)
     d = os.path.join(CACHE, th, config)
-    lock_path = os.path.join(CACHE, "lock")
+    lock_path = os.path.join(CACHE, th + "." + config + ".lock")
     with open(lock_path, "w") as lock:
         fcntl.flock(lock, fcntl.LOCK_EX)
         try:
